@@ -69,9 +69,10 @@ class FIBDemux(Device):
             self.ends[flow_id].put(packet)
         else:
             try:
-                assert self.outs
-                self.outs[self._fib[packet.flow_id]].put(packet)
-            except (KeyError, IndexError, ValueError) as exc:
-                print("FIB Demux Error: " + str(exc))
-                if self.default_out:
-                    self.default_out.put(packet)
+                out = self.outs[self._fib[flow_id]]
+            except (KeyError, IndexError, TypeError) as exc:
+                # unknown flow, or an entry naming a port that does not exist
+                print("FIB Demux Error: " + repr(exc))
+                out = self.default_out
+            if out:
+                out.put(packet)
